@@ -74,6 +74,11 @@ def generate(rng, tier):
         cases.append(("script.pushdata_prefix", [str(n)]))
     for n in [0, 1, 2]:
         cases.append(("script.encode_pushdata", ["l:1:%d" % n]))
+    # value-dependent behaviour of the push helper: every one-byte payload, and two-byte script-number look-alikes
+    for b in range(256):
+        cases.append(("script.encode_pushdata", ["%02x" % b]))
+    for h in ["0000", "0080", "8000", "0100", "ff00", "ff7f", "ffff", "0081", "1000", "000000", "00000080"]:
+        cases.append(("script.encode_pushdata", [h]))
     P("4effffffff"); P("4effffffff00"); P("4e00000080+r:00:10"); P("4dffff+r:01:100")
     # grammar-based
     ngram = 250 if tier == "quick" else 3000
